@@ -226,12 +226,13 @@ def _openfile(instance, filething, filename, fileobj, writable, create):
     if filething is not None:
         if is_fileobj(filething):
             fileobj = filething
-        elif hasattr(filething, "__fspath__"):
-            filename = filething.__fspath__()
-            if not isinstance(filename, (bytes, str)):
-                raise TypeError("expected __fspath__() to return a filename")
         else:
             filename = filething
+
+    if hasattr(filename, "__fspath__"):
+        filename = filename.__fspath__()
+        if not isinstance(filename, (bytes, str)):
+            raise TypeError("expected __fspath__() to return a filename")
 
     if instance is not None:
         # XXX: take "not writable" as loading the file..
